@@ -303,6 +303,8 @@ let handle (fields : string list) : string =
          (String.concat "," (List.map (fun n -> match def_to_go n with
             | Ok g -> "Message" ^ String.concat "" (List.map (fun b -> String.make 1 (Char.chr (int_of_n b))) g)
             | _ -> "?") names)))
+  | ["idle"; d; arr] ->
+    string_of_n (idle_close (n_of_string d) N0 (List.map n_of_string (split ' ' arr)))
   | ["tcalls"; ops] ->
     let os = List.map (fun t -> if t = "R" then IoRead else IoWrite) (split ' ' ops) in
     String.concat " " (List.map (function SetReadDeadline -> "SR" | SetWriteDeadline -> "SW" | DoRead -> "R" | DoWrite -> "W") (timed_calls os))
